@@ -501,7 +501,7 @@ fn tune_planar_2x2() {
 }
 
 #[cfg(kani)]
-const RLE16_MAX_DATA: usize = 5;
+const RLE16_MAX_DATA: usize = 7;
 #[cfg(kani)]
 const RLE16_MAX_W: usize = 3;
 #[cfg(kani)]
@@ -521,7 +521,11 @@ fn rle16_compare(literal: bool, only_non_straddling: bool, exempt_bg_after_strad
 #[cfg(kani)]
 fn rle16_case(w: usize, h: usize, n: usize, literal: bool, only_non_straddling: bool, exempt_bg_after_straddling_bg: bool) {
     let bytes: [u8; RLE16_MAX_DATA] = kani::any();
-    let data = &bytes[..n];
+    rle16_check(w, h, &bytes[..n], literal, only_non_straddling, exempt_bg_after_straddling_bg);
+}
+
+#[cfg(kani)]
+fn rle16_check(w: usize, h: usize, data: &[u8], literal: bool, only_non_straddling: bool, exempt_bg_after_straddling_bg: bool) {
 
     // the caller (BitmapEvent::decompress) passes width*height*2 elements, zeroed
     let mut out = [0u16; RLE16_MAX_W * RLE16_MAX_H * 2];
@@ -634,4 +638,48 @@ fn tune_rle16_concrete_wh() {
     let n: usize = kani::any();
     kani::assume(n <= RLE16_MAX_DATA);
     rle16_case(3, 2, n, false, false, true);
+}
+#[cfg(kani)]
+#[kani::proof]
+#[kani::unwind(8)]
+fn tune_rle16_concrete_input() {
+    let bytes: [u8; 5] = [0x03, 0xFD, 0x61, 0xFE, 0xFE];
+    let mut out = [0u16; 12];
+    let real = super::rle_16_decompress(&bytes, 3, 2, &mut out);
+    let ok = real.is_ok();
+    std::mem::forget(real);
+    assert!(ok);
+}
+#[cfg(kani)]
+#[kani::proof]
+#[kani::unwind(8)]
+fn tune_rle16_one_symbolic() {
+    let b: u8 = kani::any();
+    let bytes: [u8; 1] = [b];
+    let mut out = [0u16; 12];
+    let real = super::rle_16_decompress(&bytes, 3, 2, &mut out);
+    let ok = real.is_ok();
+    std::mem::forget(real);
+    if b == 0xFD { assert!(ok); }
+}
+#[cfg(kani)]
+#[kani::proof]
+#[kani::unwind(8)]
+fn tune_rle16_w2h2n7() {
+    rle16_case(2, 2, 7, false, false, true);
+}
+
+#[cfg(kani)]
+#[kani::proof]
+#[kani::unwind(8)]
+fn tune_rle16_len2() {
+    let bytes: [u8; 2] = kani::any();
+    rle16_check(3, 2, &bytes, false, false, true);
+}
+#[cfg(kani)]
+#[kani::proof]
+#[kani::unwind(8)]
+fn tune_rle16_len3() {
+    let bytes: [u8; 3] = kani::any();
+    rle16_check(3, 2, &bytes, false, false, true);
 }
